@@ -121,7 +121,12 @@ def ext_binsize(case, ctx):
     bs = get_binsize(bins)
     cs = get_chromsizes(bins)
     path = ctx.path()
-    cooler.create_cooler(path, bins, gen.pixels_frame([[0, 0, 1]]), ordered=True)
+    if case.get("prior_fixed"):
+        # the path already holds a cooler on a FIXED-width table (bin size 2); the case's collection replaces it in append mode
+        cooler.create_cooler(path, gen.bins_frame(gen.binnify([6, 4], 2)), gen.pixels_frame([[0, 1, 3]]), ordered=True)
+        cooler.create_cooler(path, bins, gen.pixels_frame([[0, 0, 1]]), ordered=True, mode="a")
+    else:
+        cooler.create_cooler(path, bins, gen.pixels_frame([[0, 0, 1]]), ordered=True)
     c = cooler.Cooler(path)
     info = c.info
     return {"binsize": _none0(bs), "chromsizes": [int(x) for x in cs.values],
